@@ -244,6 +244,58 @@ def setup_args(case):
     return dict(initial_conditions=ics, parameter_conditions=pc_arg)
 
 
+def same_model(c, item):
+    """two inference problems on the SAME Model object, a parameter that is not estimated moved with Model.set_params in between:
+    each problem is the posterior for the model's parameters as they are when it is set up; evaluations of the two are interleaved"""
+    import pandas as pd
+    from bioscrape.inference_setup import InferenceSetup
+    name, meas, N = item
+    md = MODELS[name]
+    c.count('states')
+    m = build_model(name)
+    others = [k_ for k_ in md['params'] if k_ != 'k1']
+    grids = [GRIDS[n % 2] for n in range(N)]
+    ics = [dict({s_: DEFAULTS[s_] for s_ in md['species']}, **{md['species'][0]: 4.0 + n}) for n in range(N)]
+
+    def problem(pvals):
+        dfs = []
+        for n in range(N):
+            X = x_ref(name, dict(pvals, k1=0.9), ics[n], grids[n])
+            dfs.append(pd.DataFrame(dict(time=grids[n], **{s_: X[:, j] + 0.1 * (j + 1) + 0.01 * n for j, s_ in enumerate(md['species'])})))
+        ins = InferenceSetup(Model=m, prior={'k1': ['uniform', 0.0, 3.0]}, params_to_estimate=['k1'], exp_data=dfs if N > 1 else dfs[0],
+                             measurements=list(meas), time_column='time', initial_conditions=ics if N > 1 else ics[0], norm_order=2,
+                             sim_type='deterministic')
+        def expect(th):
+            tot = 0.0
+            for n in range(N):
+                X = x_ref(name, dict(pvals, k1=th), ics[n], grids[n])
+                for s_ in meas:
+                    tot += float(np.sum(np.abs(dfs[n][s_].to_numpy() - X[:, md['species'].index(s_)]) ** 2))
+            return math.log(1.0 / 3.0) - tot ** 0.5
+        return ins, expect
+    pA = dict(md['params'])
+    insA, expA = problem(pA)
+    vA = float(insA.cost_function([1.3]))
+    pB = dict(pA)
+    for k_ in others:
+        pB[k_] = pA[k_] * 2.0 + 0.1
+    m.set_params({k_: pB[k_] for k_ in others})
+    insB, expB = problem(pB)
+    for th, who in ((1.3, 'B'), (0.5, 'B'), (1.3, 'B')):
+        ins, exp_f = (insB, expB)
+        got = float(ins.cost_function([th]))
+        exp = exp_f(th)
+        c.count('evaluations'); c.count('transitions'); c.count('traces')
+        if not math.isfinite(got) or abs(got - exp) > 1e-5 * (1 + abs(exp)):
+            c.violation('C15/same-model/value', 'second problem on the same Model (after Model.set_params(%s)): cost(%r) = %r, stated posterior %r' % (
+                {k_: pB[k_] for k_ in others}, th, got, exp), dict(same_model=[name, list(meas), N]))
+            return
+    if abs(vA - expA(1.3)) > 1e-5 * (1 + abs(vA)):
+        c.violation('C15/same-model/value', 'first problem: cost(1.3) = %r, stated posterior %r' % (vA, expA(1.3)), dict(same_model=[name, list(meas), N]))
+        return
+    c.nontrivial(('same-model', name, tuple(meas), N))
+
+
 def ramp(c, item):
     """a measured species defined by an assignment rule that reads the time (Y = m*t + A, A decaying with rate k1), trajectories
     whose time grids start at 0 and later: closed form A(t) = A0 exp(-k1 (t - t_first)), Y(t) = m t + A(t)"""
@@ -376,6 +428,8 @@ def run(ctx):
                     for chain in ((False,) if ctx.quick and N == 3 else (False, True)):
                         ru.append((a_, b_, chain))
     pmap(reuse, ru, ctx, nshards=64)
+    sm = [(name_, ms_, N_) for name_ in ('convert', 'chain') for ms_ in ([MODELS[name_]['species'][0]], list(MODELS[name_]['species'])) for N_ in (1, 2)]
+    pmap(same_model, sm, ctx, nshards=len(sm))
     rp = [(st_, ms_, nm_) for st_ in ((0.0,), (1.0,), (0.0, 2.0), (2.0, 1.0), (1.0, 0.0, 0.5)) for ms_ in (['Y'], ['A', 'Y'], ['Y', 'A']) for nm_ in (1, 2)]
     pmap(ramp, rp, ctx, nshards=len(rp))
     st = [(N, meas) for N in (1, 2, 3) for meas in (['A'], ['A', 'B'], ['B', 'C', 'A'])]
@@ -387,12 +441,14 @@ def run(ctx):
                 'data differ per species, trajectory and time so any misalignment changes the value. For each case: LL_data alignment, '
                 'cost(theta) against the closed form at 5 points (one repeated, one outside the prior support -> -inf), every sequence of '
                 'evaluations up to the history bound against a fresh InferenceSetup (1e-9), every permutation of measurement columns and of '
-                'trajectories; one InferenceSetup object re-used for a second (and back to the first, and the second again) experiment through set_exp_data / set_initial_conditions / set_parameter_conditions + prepare_inference + setup_cost_function, with another time column of the same length; a measured species defined by a time-reading assignment rule on trajectories whose grids start at 0 and later; plus the stochastic cost on a stream-independent model. states = cases; non-trivial = more than one '
+                'trajectories; one InferenceSetup object re-used for a second (and back to the first, and the second again) experiment through set_exp_data / set_initial_conditions / set_parameter_conditions + prepare_inference + setup_cost_function, with another time column of the same length; two problems set up one after the other on the same Model object with a non-estimated parameter moved by Model.set_params in between; a measured species defined by a time-reading assignment rule on trajectories whose grids start at 0 and later; plus the stochastic cost on a stream-independent model. states = cases; non-trivial = more than one '
                 'measured species or trajectory.')
     ctx.assumptions = ['reference trajectories by scipy.linalg.expm; deterministic cost compared at 1e-5 relative (odeint tolerance)']
 
 
 def replay(ctx, case):
+    if 'same_model' in case:
+        return same_model(ctx, (case['same_model'][0], case['same_model'][1], case['same_model'][2]))
     if 'ramp' in case:
         return ramp(ctx, (tuple(case['ramp'][0]), case['ramp'][1], case['ramp'][2]))
     if 'reuse' in case:
